@@ -130,6 +130,18 @@ def h_lines(which):
         l3 = values.new_int("next_line", 1, None)
         p.assume(l3.e > ln.e + 3)
         nodes.append(mk(PT.Expression, l3, code=Code("_('MSG2')"), text="_('MSG2')", escapes="", escapes_code=Code("")))
+        # the same sequence may sit inside a def / call with content: child nodes are extracted recursively
+        nesting = ["top-level", "inside-def", "inside-call"][p.choose(3, "nesting")]
+        if nesting != "top-level":
+            ld = values.new_int("outer_line", 1, None)
+            first = nodes[0].lineno
+            p.assume(ld.e < (first.e if isinstance(first, SymInt) else first))
+            if nesting == "inside-def":
+                outer = mk(PT.DefTag, ld, function_decl=Code("def outer():pass"), keyword="def", attributes={})
+            else:
+                outer = mk(PT.CallTag, ld, code=Code("outer()"), keyword="call", attributes={})
+            outer.nodes = nodes
+            nodes = [outer]
         record = []
         if which == "babel":
             BP.extract_python = babel_stub(record)
@@ -142,7 +154,7 @@ def h_lines(which):
             ex.python_extractor = lingua_stub(record)
             got = [(g.location[1], g.msgid, g.comment) for g in ex.extract_nodes(nodes)]
         return dict(kind=kind, py=py, j=j, ln=ln, lc=lc, k=k, has_c=has_c, between=between, cont=cont, last_comment=last_comment, l3=l3, got=got,
-                    which=which)
+                    which=which, nesting=nesting)
     return h
 
 
@@ -154,7 +166,7 @@ def on_lines(p, r, exc, acc):
     m = p.witness()
     ev = lambda t, mod: mod.eval(t, model_completion=True).as_long() if not isinstance(t, int) else t
     desc = lambda mod: dict(extractor=r["which"], construct=r["kind"], python=r["py"], node_line=ev(r["ln"].e, mod), tagged_comment=r["has_c"],
-                            comment_line=ev(r["lc"].e, mod) if r["has_c"] else None, comment_lines=r["k"], expression_between=r["between"],
+                            comment_line=ev(r["lc"].e, mod) if r["has_c"] else None, comment_lines=r["k"], expression_between=r["between"], nesting=r["nesting"],
                             untagged_comment=r["cont"], last_comment_line=ev(r["last_comment"], mod) if r["has_c"] else None)
     got = r["got"]
     acc.vcs += 1
